@@ -68,8 +68,19 @@ def r1(ctx):
     # --- manager: test `deployment_name not in self.config_map` -> claim
     f = p.func(f"{MGR}._deploy")
     g = f.cfg
-    tests = [n for n in g.nodes.values() if n.kind == "test" and "not in self.config_map" in n.text(300)]
-    ctx.require(len(tests) >= 1, "C26.R1: claim test `not in self.config_map` not found in _deploy")
+    # membership tests on config_map; `absent` is the edge kind taken when the name is NOT registered
+    def _absent_edge(test):
+        neg = False
+        while isinstance(test, ast.UnaryOp) and isinstance(test.op, ast.Not):
+            test, neg = test.operand, not neg
+        if isinstance(test, ast.Compare) and len(test.ops) == 1 and unparse(test.comparators[0]) == "self.config_map":
+            if isinstance(test.ops[0], ast.NotIn):
+                return "f" if neg else "t"
+            if isinstance(test.ops[0], ast.In):
+                return "t" if neg else "f"
+        return None
+
+    members = {n.id: _absent_edge(n.ast) for n in g.nodes.values() if n.kind == "test" and _absent_edge(n.ast)}
     claims = [
         n
         for n in g.nodes.values()
@@ -79,7 +90,13 @@ def r1(ctx):
     ]
     ctx.require(len(claims) >= 2, "C26.R1: claim statements (config_map/events_map insertion) not found")
     susp = g.suspension_nodes()
+    # the claim test of a claim: the membership test(s) from which the claim is reached without crossing another one
+    tests = [g.nodes[t] for t in members if any(g.path(t, [c.id], avoid=[m for m in members if m != t]) for c in claims)]
+    ctx.ob("R1", "the claim of a deployment name is preceded by a membership test on config_map", bool(tests), func=f, node=claims[0].ast,
+           instance="_deploy:claim-test", message="config_map/events_map are claimed without testing whether the name is already registered")
     for t in tests:
+        absent = [b for b, k in g.succ[t.id] if k == members[t.id]]
+        present = [b for b, k in g.succ[t.id] if k in ("t", "f") and k != members[t.id]]
         for c in claims:
             # a path test -> claim passing through a suspension node?
             bad = None
@@ -101,14 +118,17 @@ def r1(ctx):
                 message=f"suspension point `{g.nodes[bad].text()}` between the claim test and the claim" if bad is not None else "",
                 witness=g.describe(g.path(t.id, [c.id]) or []),
             )
-            # the claim must also be dominated by the test (inside the true branch)
+            # the claim must be dominated by the test and lie on its `name not registered` branch only
+            on_present = any(b == c.id or c.id in g.reach([b], avoid=[t.id]) for b in present)
+            on_absent = any(b == c.id or c.id in g.reach([b], avoid=[t.id]) for b in absent)
             ctx.ob(
                 "R1",
                 f"claim `{c.text(50)}` is guarded by the claim test",
-                g.dominates(t.id, c.id),
+                g.dominates(t.id, c.id) and on_absent and not on_present,
                 func=f,
                 node=c.ast,
                 instance=f"_deploy:guard:{unparse(c.ast.targets[0])}",
+                message="the claim is not confined to the branch where the name is not registered yet" if g.dominates(t.id, c.id) else "",
             )
     # --- FutureConnector delegating methods: identical claim idiom
     cls = p.cls(FUT)
